@@ -11,6 +11,13 @@
 //   tri  <grid|simple> <rc2> <excl> <sel1> [<sel2> [<sel3>]]
 //   grid <rc2>                    cells per direction and cell index of every bead (NBListGrid internals)
 //   xins i j | xrem i j | xexl i.. | xreml i.. | xinsl b i.. | xcreate | xq     ExclusionList calls
+// object re-use (spec/nbgrid/NbHist.tla): ONE list object lives across commands
+//   obj new <pair|tri> <grid|simple> | obj cut <rc2> | obj gen <excl> <sel1> [<sel2> [<sel3>]] | obj clean
+//   setbox ax bx by cx cy cz | setpos i x y z          change the frame of the current topology
+// topology substrate (spec/topology/Topology.tla): two topologies, w = 0 (under test) / 1 (copy source)
+//   t <w> new | res <name> | bead <name> <type> <resnr> | mol <name> | add <mol> <bead> | ia <grp> <k> ids..
+//   t <w> rebuild | box ax bx by cx cy cz <auto|ortho|tric|open> | cleanup | copy | rename <range> <name> | q
+//   q prints the whole observable state as one JSON object
 //
 // pair prints  "calls <n> f s rx ry rz d ..."  (every invocation of the match callback, in order)
 //         and  "stored <n> f s rx ry rz d ..." (the pair list afterwards);
@@ -95,6 +102,13 @@ int main() {
   std::unique_ptr<Topology> top;
   std::vector<Molecule *> mols;
   long seq = 0;
+  // the re-used list object and its counters
+  std::unique_ptr<NBList> pobj;
+  std::unique_ptr<NBList_3Body> tobj;
+  PairCounter pcnt;
+  TripleCounter tcnt;
+  // second topology (source of CopyTopologyData)
+  std::unique_ptr<Topology> src;
   std::cout.precision(17);
   while (std::getline(std::cin, line)) {
     ++seq;
@@ -106,6 +120,8 @@ int main() {
       if (cmd == "top") {
         double ax, bx, by, cx, cy, cz;
         in >> ax >> bx >> by >> cx >> cy >> cz;
+        pobj.reset();
+        tobj.reset();
         top.reset(new Topology());
         mols.clear();
         Eigen::Matrix3d box = Eigen::Matrix3d::Zero();
@@ -235,6 +251,273 @@ int main() {
                     << t->dist12() << " " << t->dist13();
         }
         std::cout << std::endl;
+      } else if (cmd == "setbox") {
+        double ax, bx, by, cx, cy, cz;
+        in >> ax >> bx >> by >> cx >> cy >> cz;
+        Eigen::Matrix3d box = Eigen::Matrix3d::Zero();
+        box(0, 0) = ax / 8.0;
+        box(0, 1) = bx / 8.0;
+        box(1, 1) = by / 8.0;
+        box(0, 2) = cx / 8.0;
+        box(1, 2) = cy / 8.0;
+        box(2, 2) = cz / 8.0;
+        top->setBox(box);
+        std::cout << "ok boxtype " << int(top->getBoxType()) << std::endl;
+      } else if (cmd == "setpos") {
+        Index i;
+        double x, y, z;
+        in >> i >> x >> y >> z;
+        top->getBead(i)->setPos(Eigen::Vector3d(x / 8.0, y / 8.0, z / 8.0));
+        std::cout << "ok" << std::endl;
+      } else if (cmd == "obj") {
+        std::string sub;
+        in >> sub;
+        if (sub == "new") {
+          std::string kind, algo;
+          in >> kind >> algo;
+          pobj.reset();
+          tobj.reset();
+          if (kind == "pair") {
+            if (algo == "grid") {
+              pobj.reset(new NBListGrid());
+            } else {
+              pobj.reset(new NBList());
+            }
+            pobj->SetMatchFunction(&pcnt, &PairCounter::Found);
+          } else {
+            if (algo == "grid") {
+              tobj.reset(new NBListGrid_3Body());
+            } else {
+              tobj.reset(new NBList_3Body());
+            }
+            tobj->SetMatchFunction(&tcnt, &TripleCounter::Found);
+          }
+          std::cout << "ok" << std::endl;
+        } else if (sub == "cut") {
+          long rc2;
+          in >> rc2;
+          if (pobj) pobj->setCutoff(std::sqrt(double(rc2)) / 8.0);
+          if (tobj) tobj->setCutoff(std::sqrt(double(rc2)) / 8.0);
+          std::cout << "ok" << std::endl;
+        } else if (sub == "clean") {
+          if (pobj) pobj->Cleanup();
+          if (tobj) tobj->Cleanup();
+          std::cout << "ok" << std::endl;
+        } else if (sub == "gen") {
+          int excl;
+          in >> excl;
+          std::vector<std::string> sel;
+          std::string w;
+          while (in >> w) sel.push_back(w);
+          BeadList l1, l2, l3;
+          l1.Generate(*top, sel.at(0));
+          if (sel.size() > 1) l2.Generate(*top, sel.at(1));
+          if (sel.size() > 2) l3.Generate(*top, sel.at(2));
+          if (pobj) {
+            pcnt.calls.clear();
+            if (sel.size() == 1) {
+              pobj->Generate(l1, excl != 0);
+            } else {
+              pobj->Generate(l1, l2, excl != 0);
+            }
+            std::cout << "calls " << pcnt.calls.size();
+            for (auto &c : pcnt.calls) {
+              std::cout << " " << c.f << " " << c.s;
+              printVec(std::cout, c.r);
+              std::cout << " " << c.d;
+            }
+            std::cout << std::endl;
+            std::cout << "stored " << pobj->size();
+            for (BeadPair *p : *pobj) {
+              std::cout << " " << p->first()->getId() << " " << p->second()->getId();
+              printVec(std::cout, p->r());
+              std::cout << " " << p->dist();
+            }
+            std::cout << std::endl;
+          } else if (tobj) {
+            tcnt.calls = 0;
+            if (sel.size() == 1) {
+              tobj->Generate(l1, excl != 0);
+            } else if (sel.size() == 2) {
+              tobj->Generate(l1, l2, excl != 0);
+            } else {
+              tobj->Generate(l1, l2, l3, excl != 0);
+            }
+            std::cout << "calls " << tcnt.calls << std::endl;
+            std::cout << "stored " << tobj->size();
+            for (BeadTriple *t : *tobj) {
+              std::cout << " " << t->bead1()->getId() << " " << t->bead2()->getId() << " " << t->bead3()->getId()
+                        << " " << t->dist12() << " " << t->dist13();
+            }
+            std::cout << std::endl;
+          } else {
+            throw std::runtime_error("driver: no object");
+          }
+        } else {
+          std::cout << "err unknown obj command" << std::endl;
+        }
+      } else if (cmd == "t") {
+        int w;
+        std::string op;
+        in >> w >> op;
+        std::unique_ptr<Topology> &tp = (w == 0) ? top : src;
+        if (op == "new") {
+          if (w == 0) {
+            pobj.reset();
+            tobj.reset();
+            mols.clear();
+          }
+          tp.reset(new Topology());
+          std::cout << "ok" << std::endl;
+        } else if (op == "res") {
+          std::string name;
+          in >> name;
+          tp->CreateResidue(name);
+          std::cout << "ok" << std::endl;
+        } else if (op == "bead") {
+          std::string name, type;
+          Index resnr;
+          in >> name >> type >> resnr;
+          tp->CreateBead(Bead::spherical, name, type, resnr, 1.0, 0.0);
+          std::cout << "ok" << std::endl;
+        } else if (op == "mol") {
+          std::string name;
+          in >> name;
+          tp->CreateMolecule(name);
+          std::cout << "ok" << std::endl;
+        } else if (op == "add") {
+          Index m, b;
+          in >> m >> b;
+          tp->getMolecule(m)->AddBead(tp->getBead(b), tp->getBead(b)->getName());
+          std::cout << "ok" << std::endl;
+        } else if (op == "ia") {
+          std::string grp;
+          Index k;
+          in >> grp >> k;
+          std::list<Index> ids;
+          for (Index i = 0; i < k; ++i) {
+            Index id;
+            in >> id;
+            ids.push_back(id);
+          }
+          Interaction *ia = (k == 2) ? static_cast<Interaction *>(new IBond(ids))
+                                     : static_cast<Interaction *>(new IAngle(ids));
+          ia->setGroup(grp);
+          ia->setIndex(tp->BondedInteractions().size());
+          ia->setMolecule(0);
+          tp->AddBondedInteraction(ia);
+          std::cout << "ok" << std::endl;
+        } else if (op == "rebuild") {
+          tp->RebuildExclusions();
+          std::cout << "ok" << std::endl;
+        } else if (op == "box") {
+          double ax, bx, by, cx, cy, cz;
+          std::string as;
+          in >> ax >> bx >> by >> cx >> cy >> cz >> as;
+          Eigen::Matrix3d box = Eigen::Matrix3d::Zero();
+          box(0, 0) = ax / 8.0;
+          box(0, 1) = bx / 8.0;
+          box(1, 1) = by / 8.0;
+          box(0, 2) = cx / 8.0;
+          box(1, 2) = cy / 8.0;
+          box(2, 2) = cz / 8.0;
+          BoundaryCondition::eBoxtype bt = BoundaryCondition::typeAuto;
+          if (as == "ortho") bt = BoundaryCondition::typeOrthorhombic;
+          if (as == "tric") bt = BoundaryCondition::typeTriclinic;
+          if (as == "open") bt = BoundaryCondition::typeOpen;
+          tp->setBox(box, bt);
+          std::cout << "ok" << std::endl;
+        } else if (op == "cleanup") {
+          tp->Cleanup();
+          std::cout << "ok" << std::endl;
+        } else if (op == "copy") {
+          top->CopyTopologyData(src.get());
+          std::cout << "ok" << std::endl;
+        } else if (op == "rename") {
+          std::string range, name;
+          in >> range >> name;
+          tp->RenameMolecules(range, name);
+          std::cout << "ok" << std::endl;
+        } else if (op == "q") {
+          std::ostream &o = std::cout;
+          o << "{\"res\":[";
+          for (Index i = 0; i < tp->ResidueCount(); ++i) {
+            o << (i ? "," : "") << "[" << tp->getResidue(i).getId() << ",\"" << tp->getResidue(i).getName() << "\"]";
+          }
+          o << "],\"beads\":[";
+          for (Index i = 0; i < tp->BeadCount(); ++i) {
+            Bead *b = tp->getBead(i);
+            o << (i ? "," : "") << "[" << b->getId() << ",\"" << b->getName() << "\",\"" << b->getType() << "\","
+              << b->getResnr() << "," << b->getMoleculeId() + 1 << "]";
+          }
+          o << "],\"mols\":[";
+          for (Index i = 0; i < tp->MoleculeCount(); ++i) {
+            Molecule *m = tp->getMolecule(i);
+            o << (i ? "," : "") << "[" << m->getId() << ",\"" << m->getName() << "\",[";
+            for (Index k = 0; k < m->BeadCount(); ++k) o << (k ? "," : "") << m->getBead(k)->getId() + 1;
+            o << "],[";
+            for (Index k = 0; k < m->BeadCount(); ++k) o << (k ? "," : "") << "\"" << m->getBeadName(k) << "\"";
+            o << "]]";
+          }
+          InteractionContainer &ic = tp->BondedInteractions();
+          o << "],\"nia\":" << ic.size() << ",\"gid\":[";
+          for (size_t k = 0; k < ic.size(); ++k) o << (k ? "," : "") << ic[k]->getGroupId();
+          o << "],\"ialist\":[";
+          for (size_t k = 0; k < ic.size(); ++k) {
+            o << (k ? "," : "") << "[";
+            for (Index q = 0; q < ic[k]->BeadCount(); ++q) o << (q ? "," : "") << ic[k]->getBeadId(q) + 1;
+            o << "]";
+          }
+          o << "],\"grp\":{";
+          bool firstg = true;
+          for (std::string g : {"g1", "g2"}) {
+            o << (firstg ? "" : ",") << "\"" << g << "\":[";
+            firstg = false;
+            std::vector<Interaction *> v = tp->InteractionsInGroup(g);
+            for (size_t k = 0; k < v.size(); ++k) {
+              Index idx = 0;     // position (1-based) among the current interactions; 0 = not one of them (stale pointer)
+              for (size_t q = 0; q < ic.size(); ++q) {
+                if (ic[q] == v[k]) idx = Index(q) + 1;
+              }
+              o << (k ? "," : "") << idx;
+            }
+            o << "]";
+          }
+          const Eigen::Matrix3d &bx = tp->getBox();
+          o << "},\"box\":[" << bx(0, 0) * 8 << "," << bx(0, 1) * 8 << "," << bx(1, 1) * 8 << "," << bx(0, 2) * 8 << ","
+            << bx(1, 2) * 8 << "," << bx(2, 2) * 8 << "],\"low\":[" << bx(1, 0) << "," << bx(2, 0) << "," << bx(2, 1) << "]";
+          BoundaryCondition::eBoxtype bt = tp->getBoxType();
+          o << ",\"bt\":\""
+            << (bt == BoundaryCondition::typeOpen ? "open" : bt == BoundaryCondition::typeOrthorhombic ? "ortho"
+                : bt == BoundaryCondition::typeTriclinic ? "tric" : "auto")
+            << "\",\"excl\":[";
+          bool firste = true;
+          for (Index i = 0; i < tp->BeadCount(); ++i) {
+            for (Index j = 0; j < tp->BeadCount(); ++j) {
+              if (tp->getExclusions().IsExcluded(tp->getBead(i), tp->getBead(j))) {
+                o << (firste ? "" : ",") << "[" << i + 1 << "," << j + 1 << "]";
+                firste = false;
+              }
+            }
+          }
+          o << "],\"sel\":{";
+          bool firsts = true;
+          for (std::string sel : {"*", "A", "B"}) {
+            BeadList bl;
+            bl.Generate(*tp, sel);
+            o << (firsts ? "" : ",") << "\"" << sel << "\":[";
+            firsts = false;
+            bool f2 = true;
+            for (Bead *b : bl) {
+              o << (f2 ? "" : ",") << b->getId() + 1;
+              f2 = false;
+            }
+            o << "]";
+          }
+          o << "}}" << std::endl;
+        } else {
+          std::cout << "err unknown t command" << std::endl;
+        }
       } else if (cmd == "grid") {
         long rc2;
         in >> rc2;
